@@ -44,6 +44,9 @@ def stri(t):
 def build():
     C = ContractSet("C19", "BCP messages round-trip exactly and reassemble from any chunking")
     C.strings = True
+    C.finite_checks.append(common.native_demo_check(
+        'c19_bytes_marker_in_json_value.py',
+        "a string parameter that contains '&bytes=3' in a JSON-mode message does not break the line framing"))
 
     # ---- library models (A-LIB)
     C.cls("SplitResult", fields={})
